@@ -101,6 +101,8 @@ func goTypeName(e ast.Expr) (Ty, bool) {
 				return TBool, true
 			case "StringLit":
 				return TString, true
+			case "UndefinedLit":
+				return TUndef, true
 			}
 		}
 	case *ast.ArrayType:
@@ -189,6 +191,7 @@ const (
 	KindFold              // func(...) (parser.Expr, bool) -> Option Lit
 	KindUnary             // vm.xOpUnary: error result + store to stack -> Res Val
 	KindBool              // plain bool function (IsFalsy etc)
+	KindOptBool           // func(...) (bool, bool) -> Res (Option Bool)
 )
 
 type Tr struct {
@@ -418,6 +421,16 @@ func (t *Tr) assign(s *ast.AssignStmt, env Env, k func(Env) string) string {
 		name = l.Name
 	default:
 		fail(s.Pos(), "assignment target %T", l)
+	}
+	// literal text produced by strconv (Literal fields of folded nodes) is not part of the value
+	if call, ok := s.Rhs[0].(*ast.CallExpr); ok {
+		if sel, ok := call.Fun.(*ast.SelectorExpr); ok {
+			if id, ok := sel.X.(*ast.Ident); ok && id.Name == "strconv" {
+				e2 := env.clone()
+				e2[name] = binding{lean: "([] : Go.Bytes)", ty: TString}
+				return k(e2)
+			}
+		}
 	}
 	old, had := env[name]
 	want := TNone
@@ -764,7 +777,41 @@ func (t *Tr) ret(s *ast.ReturnStmt, env Env) string {
 			fail(s.Pos(), "return value with error")
 		}
 		return t.errExpr(s.Results[1], env)
+	case KindOptBool:
+		if len(s.Results) != 2 {
+			fail(s.Pos(), "return arity")
+		}
+		okv, ok := s.Results[1].(*ast.Ident)
+		if !ok {
+			fail(s.Pos(), "flag")
+		}
+		if okv.Name == "false" {
+			return ".ok none"
+		}
+		le, lt := t.expr(s.Results[0], env, TBool)
+		if lt != TBool {
+			fail(s.Pos(), "return of non-bool")
+		}
+		return ".ok (some " + le + ")"
 	case KindFold:
+		if len(s.Results) == 1 {
+			// return so.binaryopInts(op, left, right)
+			call, ok := s.Results[0].(*ast.CallExpr)
+			if !ok {
+				fail(s.Pos(), "single-value fold return")
+			}
+			sel, ok := call.Fun.(*ast.SelectorExpr)
+			if !ok {
+				fail(s.Pos(), "fold delegation")
+			}
+			var as []string
+			for _, a := range call.Args {
+				le, _ := t.expr(a, env, TNone)
+				as = append(as, le)
+			}
+			t.Calls[sel.Sel.Name] = true
+			return sel.Sel.Name + " F " + strings.Join(as, " ")
+		}
 		if len(s.Results) != 2 {
 			fail(s.Pos(), "return arity")
 		}
@@ -1081,6 +1128,17 @@ func isUntyped(e ast.Expr) bool {
 }
 
 func (t *Tr) binary(x *ast.BinaryExpr, env Env) (string, Ty) {
+	// `expr == nil` on an interface-typed AST node: the shipped AST has no nil expression here
+	if id, ok := x.Y.(*ast.Ident); ok && id.Name == "nil" && (x.Op == token.EQL || x.Op == token.NEQ) {
+		if l, ok := x.X.(*ast.Ident); ok {
+			if bnd, ok := env[l.Name]; ok && bnd.ty == TVal {
+				if x.Op == token.EQL {
+					return "false", TBool
+				}
+				return "true", TBool
+			}
+		}
+	}
 	var a, b string
 	var at, bt Ty
 	if isUntyped(x.X) && !isUntyped(x.Y) {
@@ -1305,6 +1363,27 @@ func (t *Tr) call(x *ast.CallExpr, env Env, want Ty) (string, Ty) {
 			fail(x.Pos(), "conversion of interface value")
 		}
 		return conv(le, lt, ty, x.Pos()), ty
+	}
+	if sel, ok := x.Fun.(*ast.SelectorExpr); ok && sel.Sel.Name == "IsFalsy" && len(x.Args) == 0 {
+		if id, ok := sel.X.(*ast.Ident); ok && id.Name == "Undefined" {
+			return "true", TBool
+		}
+		le, lt := t.expr(sel.X, env, TNone)
+		switch lt {
+		case TInt, TUint:
+			return "(" + le + " == (0#64))", TBool
+		case TChar:
+			return "(" + le + " == (0#32))", TBool
+		case TFloat:
+			return "(Go.F64.isNaN " + le + ")", TBool
+		case TString, TBytes:
+			return "(" + le + ".isEmpty)", TBool
+		case TBool:
+			return "(!" + le + ")", TBool
+		case TVal:
+			return "(isFalsy " + le + ")", TBool
+		}
+		fail(x.Pos(), "IsFalsy on %s", lt)
 	}
 	switch f := x.Fun.(type) {
 	case *ast.Ident:
